@@ -245,7 +245,7 @@ fn check_membership(case: &Json, stats: &mut Stats) -> Verdict {
     let Some(t) = Ty::parse(tt) else {
         return Verdict::Discard("tested type not read by the harness");
     };
-    let mut expected = vec![];
+    let mut expected: Vec<Json> = vec![];
     for text in &texts {
         let Some((_, v, _)) = catalogue_values().iter().find(|(x, ..)| x == text) else {
             return Verdict::Discard("value text outside the catalogue");
@@ -258,8 +258,31 @@ fn check_membership(case: &Json, stats: &mut Stats) -> Verdict {
         2 => format!("r := mut 0; while v: {tt} = x {{ r = 1; break; }}; return *r;"),
         3 => format!("if v: {tt} = x {{ return 1; }} else {{ return 0; }}"),
         // a type filter keeps exactly the elements that belong to the type
-        _ => format!("return std.len([x]~ ? {tt} $]);"),
+        4 => format!("return std.len([x]~ ? {tt} $]);"),
+        // two filters in a row keep what belongs to both (x belongs to its declared type)
+        5 => format!("return std.len([x]~ ? {ts} ? {tt} $]);"),
+        // a cell made from x without a declared type is a cell of x's static type: it belongs to `mut T`
+        // exactly when T is that type (cells are invariant), whatever x holds
+        _ => format!("c := mut x; if v: {} = c {{ return 1; }} return 0;", cell_of(tt)),
     };
+    if form == 6 {
+        if tt.contains("->") && cell_of(&tt.replace("->", "")).starts_with("mut (") {
+            // (a union of function types after `mut` is not written unambiguously by this harness)
+            return Verdict::Discard("union of function types as cell content");
+        }
+        let Some(hs) = Ty::parse(ts) else {
+            return Verdict::Discard("declared type not read by the harness");
+        };
+        // (equivalent but differently written content types, e.g. a union with a redundant member, are
+        // left to the implementation: it may be stricter than equivalence, never laxer)
+        let equivalent = crate::ty::sub(&hs, &t) && crate::ty::sub(&t, &hs);
+        if equivalent && hs != t {
+            return Verdict::Discard("cell content types equivalent but not identical");
+        }
+        for e in expected.iter_mut() {
+            *e = json!(if hs == t { 1 } else { 0 });
+        }
+    }
     let calls: Vec<String> = texts.iter().map(|v| format!("f({v})")).collect();
     let text = format!("f := (x: {ts}) -> int {{ {body} }}; [{}]", calls.join(", "));
     stats.eval();
@@ -333,6 +356,21 @@ fn default_cases() -> Vec<Json> {
     out
 }
 
+/// `mut T` in type syntax (a union content is parenthesised, a function type never is)
+fn cell_of(t: &str) -> String {
+    let mut depth = 0i32;
+    let mut top_union = false;
+    for ch in t.chars() {
+        match ch {
+            '(' | '[' | '{' => depth += 1,
+            ')' | ']' | '}' => depth -= 1,
+            '|' if depth == 0 => top_union = true,
+            _ => {}
+        }
+    }
+    if top_union && !t.contains("->") { format!("mut ({t})") } else { format!("mut {t}") }
+}
+
 fn membership_cases() -> Vec<Json> {
     use crate::genr::matrix::CATALOGUE;
     let extra = ["struct{}", "struct{a: int}", "struct{b: int}", "struct{a: float}", "struct{a: int, b: int}", "()->!", "()->int", "()->float", "(int)->int", "[any]", "[!]", "(any, any)", "(int, int)", "(int, int, int)", "mut any", "!"];
@@ -390,6 +428,8 @@ fn membership_cases() -> Vec<Json> {
             turned.rotate_left(values.len() / 2);
             cases.push(json!({"kind": "membership", "s": s, "t": t, "values": values, "form": (k + j) % 5}));
             cases.push(json!({"kind": "membership", "s": s, "t": t, "values": values, "form": 4}));
+            cases.push(json!({"kind": "membership", "s": s, "t": t, "values": values, "form": 5}));
+            cases.push(json!({"kind": "membership", "s": s, "t": t, "values": values, "form": 6}));
             cases.push(json!({"kind": "membership", "s": s, "t": t, "values": turned, "form": (k + j + 1) % 2}));
         }
     }
